@@ -2,8 +2,11 @@ package main
 
 import (
 	"fmt"
+	"image"
+	"image/png"
 	"io"
 	"io/ioutil"
+	"path/filepath"
 	"net"
 	"os"
 	"strings"
@@ -126,6 +129,32 @@ func labScratch() string {
 	return labScratchDir
 }
 
+// labBody: the configuration body of a lab service (ftp: filesystem under the scratch directory; vnc: a screen image)
+func labBody(s labSvc) string {
+	if o, ok := labToml[s.name]; ok {
+		return o
+	}
+	switch s.typ {
+	case "ftp":
+		return "fs_base = " + q(labScratch()) + "\n"
+	case "ssh-simulator":
+		return "credentials = [\"root:root\"]\n"
+	case "vnc":
+		p := filepath.Join(labScratch(), "screen.png")
+		if _, err := os.Stat(p); err != nil {
+			im := image.NewRGBA(image.Rect(0, 0, 64, 48))
+			for i := range im.Pix {
+				im.Pix[i] = byte(i * 7)
+			}
+			f, _ := os.Create(p)
+			png.Encode(f, im)
+			f.Close()
+		}
+		return "image = " + q(p) + "\nserver-name = \"desk\"\n"
+	}
+	return s.toml
+}
+
 // labToml overrides the configuration body of a lab service
 var labToml = map[string]string{}
 
@@ -152,13 +181,7 @@ func newSvcLab(names ...string) (*svcLab, error) {
 			continue
 		}
 		lab.byNm[s.name] = s
-		body := s.toml
-		if o, ok := labToml[s.name]; ok {
-			body = o
-		} else if s.typ == "ftp" {
-			// keep the ftp filesystem out of the directory of the executable
-			body = "fs_base = " + q(labScratch()) + "\n"
-		}
+		body := labBody(s)
 		fmt.Fprintf(&b, "[service.%s]\ntype = %s\n%s\n", s.name, q(s.typ), body)
 		fmt.Fprintf(&b, "[[port]]\nport = %s\nservices = [%s]\n", q(fmt.Sprintf("%s/%d", s.proto, s.port)), q(s.name))
 	}
